@@ -170,7 +170,36 @@ func vProg_loops(env *Zlisp) []Sexp {
 		return vA(e, vL(s("def"), s(v), vI(0)), vL(s("<"), s(v), lim), inc(v))
 	}
 	var loop Sexp
-	switch vChoice("shape", 11) {
+	switch vChoice("shape", 16) {
+	case 11: // break inside the binding expression of a let (the let's scope is already open)
+		loop = vL(s("for"), ctl("i", limit),
+			vL(s("let"), vA(e, s("x"), vL(s("cond"), vL(s("=="), s("i"), k), vL(s("break")), s("i"))),
+				vL(s("t"), s("x"))),
+			vL(s("t"), vI(100)))
+	case 12: // continue inside the second binding expression of a letseq
+		loop = vL(s("for"), ctl("i", limit),
+			vL(s("letseq"), vA(e, s("x"), s("i"), s("y"), vL(s("cond"), vL(s("=="), s("x"), k), vL(s("continue")), vL(s("+"), s("x"), vI(10)))),
+				vL(s("t"), s("y"))),
+			vL(s("t"), vI(100)))
+	case 13: // the same inside a function with locals of its own, used after the loop
+		loop = vL(s("begin"),
+			vL(s("defn"), s("f"), vA(e, s("m")),
+				vL(s("def"), s("loc"), vL(s("+"), s("m"), vI(1000))),
+				vL(s("for"), ctl("i", s("m")),
+					vL(s("let"), vA(e, s("x"), vL(s("cond"), vL(s("=="), s("i"), k), vL(s("break")), s("i"))), vL(s("t"), s("x")))),
+				vL(s("+"), s("loc"), s("m"))),
+			vL(s("+"), vL(s("f"), limit), vL(s("f"), vI(2))))
+	case 14: // labelled break of the outer loop from a let binding inside the inner loop
+		loop = vL(s("for"), s("outer:"), ctl("i", limit),
+			vL(s("for"), ctl("j", vI(2)),
+				vL(s("let"), vA(e, s("z"), vL(s("cond"), vL(s("=="), vL(s("+"), s("i"), s("j")), k), vL(s("break"), s("outer:")), vL(s("+"), s("i"), s("j")))),
+					vL(s("t"), s("z")))),
+			vL(s("t"), vI(100)))
+	case 15: // break inside the binding of a let nested in another let's body
+		loop = vL(s("for"), ctl("i", limit),
+			vL(s("let"), vA(e, s("w"), vL(s("*"), s("i"), vI(2))),
+				vL(s("let"), vA(e, s("x"), vL(s("cond"), vL(s("=="), s("i"), k), vL(s("break")), s("w"))),
+					vL(s("t"), s("x")))))
 	case 8: // break in a guarded cond arm inside a let inside the loop
 		loop = vL(s("for"), ctl("i", limit),
 			vL(s("let"), vA(e, s("x"), s("i")),
